@@ -291,9 +291,10 @@ class AssemblyBlueprint(yamlize.Object):
             paramsToCheck[paramName] = modList
 
         # check by-component mat mods
-        for comp in self.materialModifications.byComponent.values():
+        for compName, comp in self.materialModifications.byComponent.items():
             for modName, modList in comp.items():
-                paramName = f"material modifications for {modName}"
+                # several components may give the same modifier: each list is checked
+                paramName = f"material modifications for {modName} of component {compName}"
                 paramsToCheck[paramName] = modList
 
         # perform the check
